@@ -245,6 +245,10 @@ def run(R, tier):
     except facts.AnchorLost as e:
         R.anchor_lost("R13.13", str(e))
 
+    # ---- R13.14 histories: failing and succeeding messages, queue read-out and *ESR? on one device, end to end ----------------
+    from . import histtable as HT
+    HT.check(R, "R13.14", "errors", tier, "histories of failing messages (undefined header, missing / surplus parameter, out of range, wrong type), *OPC, *CLS, SYSTem:ERRor[:NEXT]? / :COUNt? / :ALL? and *ESR? through Node::run on the witness device with the real handlers: every failed message appends exactly its error (the overflow marker at capacity 8) and sets its class bit, successes add nothing, the read-out commands return and remove what the standard says", 120)
+
     # ---- R13.2 documented wiring ------------------------------------------------------------------------------------------
     check_wiring(R, "R13.2")
 
